@@ -3,6 +3,7 @@ package main
 import (
 	"errors"
 	"fmt"
+	"math/big"
 	"strconv"
 	"strings"
 	"time"
@@ -10,6 +11,7 @@ import (
 	"github.com/ipfs/go-cid"
 	"github.com/ipld/go-ipld-prime/datamodel"
 	"github.com/libp2p/go-libp2p/core/crypto"
+	"github.com/mr-tron/base58"
 	"github.com/multiformats/go-multihash"
 	"github.com/ucan-wg/go-ucan/did"
 	"github.com/ucan-wg/go-ucan/pkg/args"
@@ -46,6 +48,15 @@ func cmpChain(line, g, m string) string {
 		}
 		for i := range gs {
 			if d := cmpChain("chain.allowed", gs[i], ms[i]); d != "" {
+				return d
+			}
+		}
+		return ""
+	}
+	if strings.HasPrefix(g, "multi:") {
+		// the same token gave different verdicts (again / identity hook): each is held against the model
+		for _, gi := range strings.Split(strings.TrimPrefix(g, "multi:"), "|") {
+			if d := cmpChain(line, gi, m); d != "" {
 				return d
 			}
 		}
@@ -98,6 +109,21 @@ func principals() []principal {
 			panic(err)
 		}
 		pool = append(pool, principal{priv, d})
+	}
+	// twins: principal 5+k has the key BYTES of principal k under another key-type multicodec (P-256, 0x1200).
+	// did.Parse does not look at the key material, so these are well-formed DIDs; they have no private key
+	// and appear only where a principal is named (subject, audience), never as an issuer. To the model they
+	// are simply other principals: a validator that compares key bytes only would confuse them with k.
+	for k := 0; k < 5; k++ {
+		raw, err := pool[k].priv.GetPublic().Raw()
+		if err != nil {
+			panic(err)
+		}
+		d, err := did.Parse("did:key:z" + base58.Encode(append([]byte{0x80, 0x24}, raw...)))
+		if err != nil {
+			panic(err)
+		}
+		pool = append(pool, principal{nil, d})
 	}
 	return pool
 }
@@ -171,6 +197,9 @@ func buildDlg(desc string) (sealedDlg, error) {
 	}
 	if exp != nil {
 		opts = append(opts, delegation.WithExpirationIn(*exp))
+	}
+	if ps[iss].priv == nil {
+		return sealedDlg{}, fmt.Errorf("principal %d cannot issue", iss)
 	}
 	tkn, err := delegation.New(ps[iss].did, ps[aud].did, cmd, pol, opts...)
 	if err != nil {
@@ -327,6 +356,8 @@ func evalChain(line string) (out string, rd string) {
 			case "cause":
 				c := unknownCid(99)
 				opts = append(opts, invocation.WithCause(&c))
+			case "emptynonce":
+				opts = append(opts, invocation.WithEmptyNonce())
 			case "noiat":
 				opts = append(opts, invocation.WithoutInvokedAt())
 			case "iat":
@@ -340,7 +371,15 @@ func evalChain(line string) (out string, rd string) {
 	}
 	switch f[6] {
 	case "-":
-		return classOf(inv.ExecutionAllowed(loader)), rd
+		// the decision, asked three ways on the same token: twice in a row (a verdict must not depend on an
+		// earlier call) and through the hook entry point with a hook that hands back the arguments unchanged
+		v1 := classOf(inv.ExecutionAllowed(loader))
+		v2 := classOf(inv.ExecutionAllowed(loader))
+		v3 := classOf(inv.ExecutionAllowedWithArgsHook(loader, func(a args.ReadOnly) (*args.Args, error) { return a.WriteableClone(), nil }))
+		if (v1 == "ok") != (v2 == "ok") || (v1 == "ok") != (v3 == "ok") {
+			return "multi:" + v1 + "|" + v2 + "|" + v3, rd
+		}
+		return v1, rd
 	case "!":
 		return classOf(inv.ExecutionAllowedWithArgsHook(loader, func(args.ReadOnly) (*args.Args, error) { return nil, errHook })), rd
 	default:
@@ -359,17 +398,21 @@ func evalChain(line string) (out string, rd string) {
 // chain.validat <dlg|inv> <nbf ns|-> <exp ns|-> <t ns>: IsValidAt of a constructed token
 func evalValidAt(f []string) string {
 	ps := principals()
+	// instants are nanoseconds since 1970 as decimal text, possibly beyond int64
+	inst := func(s string) time.Time {
+		v, _ := new(big.Int).SetString(s, 10)
+		sec, ns := new(big.Int).DivMod(v, big.NewInt(1e9), new(big.Int))
+		return time.Unix(sec.Int64(), ns.Int64())
+	}
 	parse := func(s string) *time.Time {
 		if s == "-" {
 			return nil
 		}
-		v, _ := strconv.ParseInt(s, 10, 64)
-		t := time.Unix(0, v)
+		t := inst(s)
 		return &t
 	}
 	nbf, exp := parse(f[2]), parse(f[3])
-	tv, _ := strconv.ParseInt(f[4], 10, 64)
-	t := time.Unix(0, tv)
+	t := inst(f[4])
 	if f[1] == "dlg" {
 		var opts []delegation.Option
 		if nbf != nil {
@@ -501,7 +544,7 @@ var cmdLattice = []string{"/", "/foo", "/foo/bar", "/foobar", "/foo/baz", "/fo"}
 var timeChoices = []string{"", "-7200", "7200"}
 var argMaps = []string{"m()", "m(61:i1)", "m(61:i2,62:s78)", "m(61:i1,62:s78,6c:l(i1,i2))"}
 var polChoices = []string{"", "P(ceq(" + "2e61" + ",i1))", "P(ceq(2e62,s78))", "P(cgt(2e61,i1))", "P(ceq(2e613f,i1))", "P(A(2e6c,cgt(2e,i0)))", "P(ceq(2e61,i1);ceq(2e62,s78))"}
-var irrChoices = []string{"none", "meta", "nonce", "cause", "noiat", "iat", "meta,nonce,cause,iat"}
+var irrChoices = []string{"none", "meta", "nonce", "cause", "noiat", "iat", "meta,nonce,cause,iat", "emptynonce", "emptynonce,noiat"}
 
 func runChainStream(c *ctx) error {
 	principals()
@@ -610,6 +653,111 @@ func runChainStream(c *ctx) error {
 					if code%35 == 0 {
 						h.hook = "!"
 						c.emitScenario(h, "hook")
+					}
+				}
+			}
+		}
+	}
+	// (2b) every ordered pair of valid commands over {/,a,b} up to a length, as (delegated, invoked) of a one-link
+	// chain and as (root, leaf) of a two-link chain whose leaf equals the invoked command, all decided in this one
+	// process one after the other (an answer remembered under a lossy key shows up as a wrong later answer)
+	{
+		maxc := 4
+		if c.thoro {
+			maxc = 5
+		}
+		var cmds []string
+		var gen func(cur string)
+		gen = func(cur string) {
+			if len(cur) >= 1 && (cur == "/" || cur[len(cur)-1] != '/') {
+				cmds = append(cmds, cur)
+			}
+			if len(cur) == maxc {
+				return
+			}
+			for _, ch := range "/ab" {
+				gen(cur + string(ch))
+			}
+		}
+		gen("/")
+		for _, d := range cmds {
+			for _, o := range cmds {
+				s := conforming(1)
+				s.links[0].cmd = d
+				s.cmd = o
+				c.emitScenario(s, "command-pairs")
+			}
+		}
+		for i, d := range cmds {
+			for j, o := range cmds {
+				if (i+j)%3 != 0 && !c.thoro {
+					continue
+				}
+				s := conforming(2)
+				s.links[1].cmd = d
+				s.links[0].cmd = o
+				s.cmd = o
+				c.emitScenario(s, "command-pairs")
+			}
+		}
+	}
+	// (1b) twins: a principal named in a conforming chain is replaced by the DID that has the same key bytes under
+	// another key type (never an issuer: it has no key). The chain no longer conforms.
+	for n := 1; n <= 3; n++ {
+		s := conforming(n)
+		s.sub = 5 + s.sub
+		c.emitScenario(s, "twins")
+		for j := 0; j < n; j++ {
+			a := conforming(n)
+			a.links[j].aud += 5
+			c.emitScenario(a, "twins")
+			b := conforming(n)
+			b.links[j].sub += 5
+			c.emitScenario(b, "twins")
+			// and consistently everywhere but one place
+			e := conforming(n)
+			e.sub += 5
+			for q := 0; q < n; q++ {
+				if q != j {
+					e.links[q].sub += 5
+				}
+			}
+			c.emitScenario(e, "twins")
+		}
+		// the invocation's audience is irrelevant, also when it is a twin
+		d := conforming(n)
+		d.aud = 5
+		c.emitScenario(d, "twins")
+	}
+	// (4b) long policies: k always-true statements followed (or preceded) by the one that decides, on each link
+	for _, k := range []int{15, 16, 17, 63, 64, 65, 127, 128, 129, 255, 256, 257, 1000} {
+		if k > 129 && !c.thoro && k != 257 {
+			continue
+		}
+		filler := strings.Repeat("ceq(2e613f,i1);", k)
+		for n := 1; n <= 2; n++ {
+			for pos := 0; pos < n; pos++ {
+				for _, last := range []bool{true, false} {
+					for _, pass := range []bool{true, false} {
+						s := conforming(n)
+						dec := "ceq(2e62,s78)"
+						if last {
+							s.links[pos].pol = "P(" + filler + dec + ")"
+						} else {
+							s.links[pos].pol = "P(" + dec + ";" + strings.TrimSuffix(filler, ";") + ")"
+						}
+						// the other links carry fillers too, so that the aggregated policy is long
+						for q := 0; q < n; q++ {
+							if q != pos {
+								s.links[q].pol = "P(" + strings.TrimSuffix(filler, ";") + ")"
+							}
+						}
+						if pass {
+							s.args = "m(61:i1,62:s78)"
+						} else {
+							s.args = "m(61:i1,62:s79)"
+						}
+						c.emitScenario(s, "policy-long")
 					}
 				}
 			}
@@ -773,6 +921,32 @@ func runChainStream(c *ctx) error {
 				for _, b := range []int64{base, base + 7200e9} {
 					for _, d := range deltas {
 						c.emit("chain.validat "+kind+" "+nbf+" "+exp+" "+strconv.FormatInt(b+d, 10), "chain.validat", d != 0, "validat:"+kind)
+					}
+				}
+			}
+		}
+	}
+	// (6b) bounds and probes far from today: beyond the range of int64 nanoseconds (year 2262), at the edge of the
+	// 53-bit seconds the wire format allows, at year 1 and before 1970
+	{
+		sec := func(y int) string { // seconds since 1970 of 1 January of year y, as nanoseconds text
+			t := time.Date(y, 1, 1, 0, 0, 0, 0, time.UTC).Unix()
+			return new(big.Int).Mul(big.NewInt(t), big.NewInt(1e9)).String()
+		}
+		far := []string{sec(1), sec(1000), sec(1969), sec(2100), sec(2262), sec(2263), sec(2300), sec(5000), sec(100000),
+			new(big.Int).Mul(big.NewInt(9007199254740991), big.NewInt(1e9)).String()}
+		for _, kind := range []string{"dlg", "inv"} {
+			for bi, b := range far {
+				if kind == "dlg" && bi < 3 {
+					continue // the delegation constructors refuse bounds in the past
+				}
+				for _, t := range far {
+					if t == b {
+						continue
+					}
+					c.emit("chain.validat "+kind+" - "+b+" "+t, "chain.validat", true, "validat-far:"+kind)
+					if kind == "dlg" {
+						c.emit("chain.validat "+kind+" "+b+" - "+t, "chain.validat", true, "validat-far:"+kind)
 					}
 				}
 			}
